@@ -80,6 +80,11 @@ func runOne(ctx context.Context, sp *solverSpec, query string, getValues []strin
 	lines := strings.Split(txt, "\n")
 	for i, l := range lines {
 		l = strings.TrimSpace(l)
+		if strings.HasPrefix(l, "(error") {
+			// a malformed query must never be read as an answer
+			res.Status = "error"
+			return res
+		}
 		if l == "sat" || l == "unsat" || l == "unknown" || l == "timeout" {
 			first = l
 			rest = strings.Join(lines[i+1:], "\n")
